@@ -401,6 +401,11 @@ def finish(prop, tier, seed, t0, proof, coverage, violations, assumptions, level
     lines = []
     for f, vs in known:
         lines.append(f"KNOWN-FINDING: property={prop} {f['key']}: {f['what']} ({len(vs)} matching case(s) this run)")
+    # every listed finding of this property gets its line, also when this run (seed / tier / sampled inputs) did not hit it
+    hit = {f["key"] for f, _ in known}
+    for f in load_findings(prop):
+        if f["key"] not in hit:
+            lines.append(f"KNOWN-FINDING: property={prop} {f['key']}: {f['what']} (listed; its inputs were not among those explored by this run)")
     code = 0
     reported = concrete[:]
     if abstract and not concrete:
